@@ -11,6 +11,7 @@
 import Tranp.Lemmas.Infer
 import Tranp.Lemmas.InferScope
 import Tranp.Lemmas.InferLambda
+import Tranp.Model.InferOps
 
 namespace Tranp.C03
 open Tranp Tranp.Infer Tranp.Generated
@@ -599,5 +600,202 @@ example :
     (eval World.none (bindArgs [(['i'], .int), (['t'], .str)] [.int 2, .str ['a', 'b']] ++ [(['s'], .str ['a', 'b'])]) body).map typeOf
       = .ok .str := by
   decide +kernel
+
+/-! ## binary operators on instances of user classes (Tranp/Model/InferOps.lean) -/
+
+/-- `each_binary_operator` asks the LEFT operand first and keeps its answer: whatever the right operand's class declares for the
+    operator never changes the type once the receiver's attempt succeeds (the swapped attempt is a fallback only). -/
+theorem user_operator_left_decides {ct : ClassTable} {ps : OpParams} {l r t : Ty} {op : BOp}
+    (h : tryOpAny ct ps l op r = some t) : tryStepAny ct ps l op r = some t := by
+  simp only [tryStepAny, h]
+
+/-- THE sentence for operators on user classes: `x op y` with `x` an instance of the user class `lc` whose operator method (found
+    through the chain) takes the class `pc`, and `y` an instance of `pc` or of any descendant of `pc`, is typed by the declared
+    result of the method CPython calls — `type(x).<dunder>` (`pyUserOpTy`). -/
+def user_operator_statement : Prop :=
+  ∀ (ct : ClassTable) (ps : OpParams) (lc rc pc d : Str) (op : BOp) (m : Member) (p : Ty),
+    (findClass ct lc).isSome = true → lookup op.token Dunder.operators = some d → memberOf ct lc d = some m → m.callable = true →
+    userOpParam ct ps lc d = some p → (paramAlts p).contains (.cls pc .nil) = true → subclassOf ct rc pc = true →
+    tryStepAny ct ps (.cls lc .nil) op (.cls rc .nil) = pyUserOpTy ct lc op
+
+/-- The part that holds on the code: the operand's class is the parameter class or has it among its DIRECT bases (what
+    `try_operation` looks at, traits.py:211-223). The operand's own declarations of the operator are irrelevant. -/
+theorem user_operator_partial {ct : ClassTable} {ps : OpParams} {lc rc pc d : Str} {op : BOp} {m : Member} {p : Ty}
+    (hl : (findClass ct lc).isSome = true) (hd : lookup op.token Dunder.operators = some d) (hm : memberOf ct lc d = some m)
+    (hk : m.callable = true) (hp : userOpParam ct ps lc d = some p) (hpc : (paramAlts p).contains (.cls pc .nil) = true)
+    (hr : rc = pc ∨ pc ∈ directBases ct rc) :
+    tryStepAny ct ps (.cls lc .nil) op (.cls rc .nil) = pyUserOpTy ct lc op := by
+  have hpy : pyUserOpTy ct lc op = some m.ty := by simp [pyUserOpTy, hd, hm, hk]
+  rw [hpy]
+  apply user_operator_left_decides
+  simp only [tryOpAny, hl, if_true, tryOpUser, hd, hm, hk, Bool.not_true, Bool.false_eq_true, if_false, hp]
+  by_cases hs : op.selects = true
+  · simp only [hs, Bool.not_true, Bool.false_eq_true, if_false]
+    by_cases hc : (paramAlts p).contains (.cls rc .nil) = true
+    · rw [if_pos hc]
+    · rw [if_neg hc]
+      rcases hr with rfl | hb
+      · exact absurd hpc hc
+      · have hany : (directBases ct rc).any (fun b => (paramAlts p).contains (.cls b .nil)) = true :=
+          List.any_eq_true.mpr ⟨pc, hb, hpc⟩
+        rw [if_pos hany]
+  · have hs' : op.selects = false := by simpa using hs
+    simp only [hs', Bool.not_false, if_true]
+
+/-- the class table of corpus/C03/44-witness-operator-operand-indirect-subclass.json: `Num.__add__(other: Num) -> Num`,
+    `Big(Num).__add__(other: Num) -> Big`, `Big2(Big)` -/
+def opWitness : ClassTable × OpParams :=
+  let add : Str := ['_', '_', 'a', 'd', 'd', '_', '_']
+  let num : Str := ['N', 'u', 'm']
+  let big : Str := ['B', 'i', 'g']
+  ([⟨num, [], [⟨add, .method, .cls num .nil⟩]⟩, ⟨big, [num], [⟨add, .method, .cls big .nil⟩]⟩, ⟨['B', 'i', 'g', '2'], [big], []⟩],
+   [((num, add), .cls num .nil), ((big, add), .cls num .nil)])
+
+/-- non-vacuity of `user_operator_partial`: `nu + bg` (one level) is typed `Num`, like CPython's `Num.__add__(nu, bg)` -/
+example : tryStepAny opWitness.1 opWitness.2 (.cls ['N', 'u', 'm'] .nil) .add (.cls ['B', 'i', 'g'] .nil) = some (.cls ['N', 'u', 'm'] .nil) ∧
+    pyUserOpTy opWitness.1 ['N', 'u', 'm'] .add = some (.cls ['N', 'u', 'm'] .nil) ∧
+    ['N', 'u', 'm'] ∈ directBases opWitness.1 ['B', 'i', 'g'] := by decide +kernel
+
+/-- Known finding operator-operand-indirect-subclass: the full sentence is false on the code — for an operand TWO levels below
+    the parameter class (`nu + b2`, `Big2(Big(Num))`) the receiver gives up and the swapped attempt answers the operand's own
+    method: `Big`, where CPython computes a `Num`. (Replayed on the real code from the corpus witness.) -/
+theorem user_operator_counterexample : ¬ user_operator_statement := by
+  intro h
+  have := h opWitness.1 opWitness.2 ['N', 'u', 'm'] ['B', 'i', 'g', '2'] ['N', 'u', 'm'] ['_', '_', 'a', 'd', 'd', '_', '_'] .add
+    ⟨['_', '_', 'a', 'd', 'd', '_', '_'], .method, .cls ['N', 'u', 'm'] .nil⟩ (.cls ['N', 'u', 'm'] .nil)
+    (by decide +kernel) (by decide +kernel) (by decide +kernel) (by decide +kernel) (by decide +kernel) (by decide +kernel) (by decide +kernel)
+  revert this
+  decide +kernel
+
+/-- the full sentence holds on the model of the REPAIRED `try_operation` (proposed/C03-operator-operand-indirect-subclass.diff: the
+    operand's whole ancestry is compared with the parameter class): an operand of ANY descendant class is accepted by the left
+    operand's method -/
+theorem user_operator_repaired {ct : ClassTable} {ps : OpParams} {lc rc pc d : Str} {op : BOp} {m : Member} {p : Ty}
+    (hl : (findClass ct lc).isSome = true) (hd : lookup op.token Dunder.operators = some d) (hm : memberOf ct lc d = some m)
+    (hk : m.callable = true) (hp : userOpParam ct ps lc d = some p) (hpc : (paramAlts p).contains (.cls pc .nil) = true)
+    (hr : subclassOf ct rc pc = true) :
+    tryStepAnyRepaired ct ps (.cls lc .nil) op (.cls rc .nil) = pyUserOpTy ct lc op := by
+  have hpy : pyUserOpTy ct lc op = some m.ty := by simp [pyUserOpTy, hd, hm, hk]
+  rw [hpy]
+  have hleft : tryOpAnyRepaired ct ps (.cls lc .nil) op (.cls rc .nil) = some m.ty := by
+    simp only [tryOpAnyRepaired, hl, if_true, tryOpUserRepaired, hd, hm, hk, Bool.not_true, Bool.false_eq_true, if_false, hp]
+    by_cases hs : op.selects = true
+    · simp only [hs, Bool.not_true, Bool.false_eq_true, if_false]
+      by_cases hc : (paramAlts p).contains (.cls rc .nil) = true
+      · rw [if_pos hc]
+      · rw [if_neg hc]
+        have hmem : pc ∈ chainOf ct rc := by simpa [subclassOf] using hr
+        have hany : (chainOf ct rc).any (fun b => (paramAlts p).contains (.cls b .nil)) = true :=
+          List.any_eq_true.mpr ⟨pc, hmem, hpc⟩
+        rw [if_pos hany]
+    · have hs' : op.selects = false := by simpa using hs
+      simp only [hs', Bool.not_false, if_true]
+  simp only [tryStepAnyRepaired, hleft]
+
+/-- non-vacuity, on the witness table: the repaired step types `nu + b2` as `Num` -/
+example : tryStepAnyRepaired opWitness.1 opWitness.2 (.cls ['N', 'u', 'm'] .nil) .add (.cls ['B', 'i', 'g', '2'] .nil) = some (.cls ['N', 'u', 'm'] .nil) ∧
+    subclassOf opWitness.1 ['B', 'i', 'g', '2'] ['N', 'u', 'm'] = true := by decide +kernel
+
+/-- one step under the decidable hypotheses -/
+theorem user_operator_step {ct : ClassTable} {ps : OpParams} {lc rc : Str} {op : BOp} (h : directOk ct ps lc op rc = true) :
+    tryStepAny ct ps (.cls lc .nil) op (.cls rc .nil) = pyUserOpTy ct lc op ∧ (pyUserOpTy ct lc op).isSome = true := by
+  unfold directOk at h
+  simp only [Bool.and_eq_true] at h
+  obtain ⟨hl, h⟩ := h
+  split at h
+  · exact absurd h (by simp)
+  · rename_i d hd
+    split at h
+    · exact absurd h (by simp)
+    · rename_i m hm
+      simp only [Bool.and_eq_true] at h
+      obtain ⟨hk, h⟩ := h
+      split at h
+      · exact absurd h (by simp)
+      · rename_i p hp
+        have hpy : pyUserOpTy ct lc op = some m.ty := by simp [pyUserOpTy, hd, hm, hk]
+        refine ⟨?_, by rw [hpy]; rfl⟩
+        rw [hpy]
+        apply user_operator_left_decides
+        simp only [tryOpAny, hl, if_true, tryOpUser, hd, hm, hk, Bool.not_true, Bool.false_eq_true, if_false, hp]
+        by_cases hs : op.selects = true
+        · simp only [hs, Bool.not_true, Bool.false_eq_true, if_false]
+          by_cases hc : (paramAlts p).contains (.cls rc .nil) = true
+          · rw [if_pos hc]
+          · rw [if_neg hc]
+            have hany : (directBases ct rc).any (fun b => (paramAlts p).contains (.cls b .nil)) = true := by
+              rcases Bool.or_eq_true _ _ |>.mp h with h1 | h2
+              · exact absurd h1 hc
+              · exact h2
+            rw [if_pos hany]
+        · have hs' : op.selects = false := by simpa using hs
+          simp only [hs', Bool.not_false, if_true]
+
+/-- `user_chain_type`: a flat chain `x op1 y op2 z …` over instances of user classes, every step within `directOk`, is typed
+    (each_binary_operator, left to right, each step with the previous RESULT as the receiver) as CPython's left-nested evaluation
+    dispatches it. -/
+theorem user_chain_type {ct : ClassTable} {ps : OpParams} : ∀ (steps : List (BOp × Ty)) (l : Ty), chainDirect ct ps l steps = true →
+    ∃ t, pyUserChainTy ct l steps = some t ∧ foldBinAny ct ps l steps = .ok t := by
+  intro steps
+  induction steps with
+  | nil => intro l _; exact ⟨l, rfl, rfl⟩
+  | cons st rest ih =>
+    intro l h
+    obtain ⟨op, r⟩ := st
+    unfold chainDirect at h
+    split at h
+    · exact absurd (by assumption : (op, r) :: rest = []) (by simp)
+    · rename_i lc op' rc rest' heq
+      cases heq
+      simp only [Bool.and_eq_true] at h
+      obtain ⟨hd, h⟩ := h
+      obtain ⟨hstep, _⟩ := user_operator_step hd
+      cases hpy : pyUserOpTy ct lc op with
+      | none => rw [hpy] at h; exact absurd h (by simp)
+      | some t =>
+        rw [hpy] at h
+        obtain ⟨t', h1, h2⟩ := ih t h
+        refine ⟨t', ?_, ?_⟩
+        · simp only [pyUserChainTy, hpy, h1]
+        · simp only [foldBinAny, hstep, hpy, h2]
+    · exact absurd h (by simp)
+
+/-- non-vacuity: `bg + nu + bg` on the witness table: `Big.__add__` answers `Big`, twice -/
+example : chainDirect opWitness.1 opWitness.2 (.cls ['B', 'i', 'g'] .nil) [(.add, .cls ['N', 'u', 'm'] .nil), (.add, .cls ['B', 'i', 'g'] .nil)] = true ∧
+    foldBinAny opWitness.1 opWitness.2 (.cls ['B', 'i', 'g'] .nil) [(.add, .cls ['N', 'u', 'm'] .nil), (.add, .cls ['B', 'i', 'g'] .nil)] = .ok (.cls ['B', 'i', 'g'] .nil) := by
+  decide +kernel
+
+/-! ## spread items -/
+
+/-- `on_spread` answers the first type argument; for the sources whose items ARE described by their first type argument — a list,
+    a dict (its keys), an `Iterator<T>` (keys(), values(), range, reversed, enumerate) — this is what `iterates` answers for a
+    `for` loop over the same source, for EVERY element type; with `sound_iter` the spread items conform to it. -/
+theorem spread_items {ct : ClassTable} (hl : findClass ct s_list = Option.none) (hd : findClass ct s_dict = Option.none) (t k v : Ty) :
+    onSpread (.list t) = iterates ct (.list t) ∧ onSpread (.dict k v) = iterates ct (.dict k v) ∧
+    ((∀ a rest, t ≠ .cls s_Iterator (.cons a rest)) → onSpread (tIter t) = iterates ct (tIter t)) := by
+  obtain ⟨h1, h2, h3, _⟩ := iter_type hl hd t k v
+  refine ⟨by rw [h1]; rfl, by rw [h2]; rfl, fun hn => by rw [h3 hn]; rfl⟩
+
+/-- the items CPython spreads conform to the type `on_spread` answers whenever it coincides with the loop-variable type -/
+theorem sound_spread {ct : ClassTable} {W : World} {tsrc elem : Ty} {v : Val} {items : List Val} (hW : WorldConf ct W)
+    (hv : Conf ct v tsrc) (hs : onSpread tsrc = .ok elem) (hit : iterates ct tsrc = onSpread tsrc) (hpy : pyIterTy ct tsrc = some elem)
+    (hitems : iterItemsW W v = .ok items) : ∀ x ∈ items, Conf ct x elem :=
+  sound_iter hW hv (hit.trans hs) hpy hitems
+
+/-- non-vacuity: `[*d]` for `d: dict[str, float]` spreads `str` items -/
+example : onSpread (.dict .str .float) = .ok .str ∧ iterates [] (.dict .str .float) = .ok .str ∧ pyIterTy [] (.dict .str .float) = some .str ∧
+    iterItemsW World.none (.dict [.str ['a']] [.float 1.5]) = .ok [.str ['a']] := by
+  refine ⟨rfl, (iter_type (ct := []) rfl rfl .int .str .float).2.1, rfl, rfl⟩
+
+/-- Known finding spread-first-type-argument: for a heterogeneous tuple the first type argument does not describe the items:
+    `[*t]` with `t = (1, 'a') : tuple[int, str]` is answered `int`, CPython spreads a `str` too. -/
+theorem spread_tuple_counterexample :
+    ¬ (∀ (t elem : Ty) (v : Val) (items : List Val), Conf [] v t → onSpread t = .ok elem → iterItemsW World.none v = .ok items →
+        ∀ x ∈ items, Conf [] x elem) := by
+  intro h
+  have hc : Conf [] (.tuple [.int 1, .str ['a']]) (.tuple (.cons .int (.cons .str .nil))) :=
+    .tuple (.cons (.int 1) (.cons (.str ['a']) .nil))
+  have := h _ .int _ [.int 1, .str ['a']] hc rfl rfl (.str ['a']) (by simp)
+  cases this
 
 end Tranp.C03
